@@ -7,13 +7,14 @@ from vfw import x690ref as R
 BOUNDS = ("catalogue U_Q/U_T (value slots narrowed to 2 size classes); BER forms produced by the reference nondeterministic writer with symbolic "
           "choice points: length padding 0..2 at top level and at nested levels, definite/indefinite at top level and at nested levels, "
           "TRUE octet 1..255, SET permutation index, DEFAULT members present/absent, string segmentation "
-          "{primitive, 2 segments at a symbolic split, nested definite, nested indefinite}; decoder length kernel: every length < 2^40, padding 0..2")
+          "{primitive, 2 segments at a symbolic split, nested definite, nested indefinite, none/one segment} applied to all strings or only to the k-th one (k symbolic); decoder length kernel: every length < 2^40, padding 0..2")
 OUTSIDE = "independent choice per element beyond top/nested; segmentation trees deeper than 2 or wider than 3 segments"
 ASSUMPTIONS = ["the reference BER writer vfw/x690ref.py (ber_nd) is trusted to produce only encodings X.690 permits"]
 
 
 class SymChoices(R.Choices):
-    def __init__(self, pad0, padn, indef0, indefn, true_octet, perm, keepdef, seg, sp):
+    def __init__(self, pad0, padn, indef0, indefn, true_octet, perm, keepdef, seg, sp, segpos=-1):
+        self.segpos, self._strings = segpos, 0
         self.pad0, self.padn, self.indef0, self.indefn = pad0, padn, indef0, indefn
         self.true = true_octet
         self.permi, self.keepdef, self.seg, self.sp = perm, keepdef, seg, sp
@@ -47,6 +48,11 @@ class SymChoices(R.Choices):
     def segments(self, t, content):
         if self.seg == 0:
             return None
+        # segpos >= 0: only that occurrence of a string (in encoding order) is segmented, the others stay primitive
+        mine = self._strings
+        self._strings += 1
+        if self.segpos >= 0 and mine != self.segpos:
+            return None
         c = list(content)
         if t.kind == "BITS":
             # fragments of a BIT STRING each carry their own unused-bits octet; only the last may be non-zero
@@ -76,10 +82,10 @@ class SymChoices(R.Choices):
         return [("C", [a], True), b]
 
 
-def forms(sid, pad0, padn, indef0, indefn, true_octet, perm, keepdef, seg, sp, **slots):
+def forms(sid, pad0, padn, indef0, indefn, true_octet, perm, keepdef, seg, sp, segpos=-1, **slots):
     e = by_id(sid)
     av = e.mk(**slots)
-    ch = SymChoices(pad0, padn, indef0, indefn, true_octet, perm, keepdef, seg, sp)
+    ch = SymChoices(pad0, padn, indef0, indefn, true_octet, perm, keepdef, seg, sp, segpos)
     enc = bytes(R.ber_nd(e.t, av, ch))
     w, rest = ber_decoder.decode(substrate(enc), asn1Spec=mk_type(e.t))
     if len(rest) != 0:
@@ -133,7 +139,7 @@ def streams_sub(data):
     return SymStream(data) if streams.SYMBOLIC else io.BytesIO(bytes(data))
 
 
-FORMP = {"pad0": I(0, 2), "padn": I(0, 2), "indef0": B, "indefn": B, "true_octet": I(1, 255), "perm": I(0, 5), "keepdef": B, "seg": I(0, 4), "sp": I(0, 3)}
+FORMP = {"pad0": I(0, 2), "padn": I(0, 2), "indef0": B, "indefn": B, "true_octet": I(1, 255), "perm": I(0, 5), "keepdef": B, "seg": I(0, 4), "sp": I(0, 3), "segpos": I(-1, 2)}
 
 
 def _relevant(e):
@@ -152,6 +158,8 @@ def _relevant(e):
     if not strs:
         p["seg"] = C(0)
         p["sp"] = C(0)
+    if e.id not in ("seqof_octs.E", "setof_octs", "seq", "set"):
+        p["segpos"] = C(-1)  # per-occurrence segmentation only where a value holds several strings (keeps the quick tier small)
     nested = any(True for t in _walk(e.t) if t is not e.t) or len(e.t.tag_list()) > 1 or strs
     if not nested:
         p["padn"] = C(0)
@@ -161,12 +169,12 @@ def _relevant(e):
     return p
 
 
-DEFAULTS = {"pad0": C(0), "padn": C(0), "indef0": C(False), "indefn": C(False), "true_octet": C(255), "perm": C(0), "keepdef": C(False), "seg": C(0), "sp": C(0)}
+DEFAULTS = {"pad0": C(0), "padn": C(0), "indef0": C(False), "indefn": C(False), "true_octet": C(255), "perm": C(0), "keepdef": C(False), "seg": C(0), "sp": C(0), "segpos": C(-1)}
 FAMILIES = {
     # quick tier: one family of choice points at a time (sum, not product); thorough: the full product ("forms")
     "forms_len": ("pad0", "padn"),
     "forms_indef": ("indef0", "indefn"),
-    "forms_seg": ("seg", "sp", "indef0"),
+    "forms_seg": ("seg", "sp", "indef0", "segpos"),
     "forms_set": ("perm", "keepdef", "true_octet", "indef0"),
 }
 
@@ -186,6 +194,8 @@ for e in all_entries():
             continue  # tag stacks over constructed types: covered by the len/indef families in quick, by the product in thorough
         for d in free:
             q[d] = p[d]
+        if e.id != "seqof_octs.E":
+            q["segpos"] = C(-1)
         fsh = [{"seg": C(s_)} for s_ in range(5)] if fam == "forms_seg" else None
         OBLIGATIONS.append(entry_obl(fam, forms, e, extra=q, narrow=True, budget=90, tiers=("quick",), extra_shards=fsh))
 OBLIGATIONS.append(Obl("len_forms", len_forms, {"n": I(0, 2 ** 40), "pad": I(0, 2), "x": BYTE}, thorough={"n": I(0, 2 ** 62)}, budget=60,
